@@ -27,6 +27,8 @@ func main() {
 		engine.RunShard(os.Args[2], os.Args[3], i, n, os.Args[6])
 	case "cold":
 		os.Exit(props.ColdMain(os.Args[2]))
+	case "fresh":
+		os.Exit(props.FreshMain(os.Args[2]))
 	case "race":
 		os.Exit(props.RaceMain(os.Args[2]))
 	case "replay":
